@@ -9,6 +9,7 @@ import Emg3dVerif.Drv.C12
 import Emg3dVerif.Drv.C11
 import Emg3dVerif.Drv.C15
 import Emg3dVerif.Drv.C10
+import Emg3dVerif.Drv.C09
 open Emg
 
 def handle (ws : List String) : String :=
@@ -27,6 +28,7 @@ def handle (ws : List String) : String :=
       else if w == "pmap" || w == "fname" || w == "slots" then Drv11.handle ws
       else if w == "volavg" || w == "vaw" then Drv15.handle ws
       else if w == "pvec" || w == "recv" || w == "dvec" then Drv10.handle ws
+      else if w == "ecf" then Drv09.handle ws
       else none
     r.getD "bad-op"
 
